@@ -140,7 +140,9 @@ def ch_boxindex(ctx) -> Channel:
         ts = 240 if kind == "video" else 48000
         durs = [rng.choice([960, 480, 1440]) * (1 if kind == "video" else 200) for _ in range(n)]
         kw = dict(with_sidx=rng.random() < .4, with_styp=rng.random() < .2, with_emsg=rng.random() < .15,
-                  with_tfdt=rng.random() < .8, encrypted=rng.random() < .3, seed=i)
+                  with_tfdt=rng.random() < .8, encrypted=rng.random() < .3, seed=i,
+                  first_decode_time=rng.choice([0, 0, 1000, 90000]), start_number=rng.choice([1, 1, 0, 7]),
+                  sample_durations_in=rng.choice(["trun", "tfhd", "trex"]))
         spp = 4 if kind == "video" else [max(1, d // 1024) for d in durs]
         if kind == "audio":
             durs = [s * 1024 for s in spp]
@@ -156,9 +158,35 @@ def ch_boxindex(ctx) -> Channel:
         impl = ";".join(f"{s.pos}:{s.size}" for s in rep.segments) or "-"
         lines.append(f"boxindex {spec}")
         recs.append((name, data, boxes, rep, impl, kw))
+        # durations / start number / start time / segment_duration recorded by indexing
+        trex = mp4walk.find(boxes, "moov/mvex/trex")
+        dflt = trex.fields["default_sample_duration"] if trex is not None else 0
+        frags = []
+        for b in boxes:
+            if b.type != "moof":
+                continue
+            mf = mp4walk.find(b, "mfhd")
+            td = mp4walk.find(b, "traf/tfdt")
+            tfhd = mp4walk.find(b, "traf/tfhd")
+            tr = mp4walk.find(b, "traf/trun")
+            dd = tfhd.fields.get("default_sample_duration") if tfhd is not None else None
+            ds = [(s_["duration"] if s_["duration"] is not None else (dd or 0)) for s_ in tr.fields["samples"]]
+            frags.append(f"{mf.fields['sequence_number']}:{'-' if td is None else td.fields['base_media_decode_time']}:"
+                         + ",".join(map(str, ds)))
+        if frags:
+            lines.append(f"loadrep {dflt} {';'.join(frags)}")
+            impl2 = (f"{','.join(str(s_.duration) for s_ in rep.segments[1:])} {rep.start_number} {rep.start_time} "
+                     f"{rep.mediaDuration if rep.mediaDuration is not None else '-'} "
+                     f"{rep.segment_duration if len(rep.segments) > 2 else '-'}")
+            recs.append((name + ":loadrep", None, None, None, impl2, kw))
     model = _driver(ch, lines)
     for (name, data, boxes, rep, impl, kw), mo, line in zip(recs, model, lines):
         ch.evaluations += 1
+        if boxes is None:
+            ch.count("loadrep")
+            if mo is not None and mo != impl:
+                ch.disagreements.append({"file": name, "line": line[:300], "model": mo, "impl": impl})
+            continue
         types = [b.type for b in boxes]
         grammar_ok = all(t in KINDS for t in types) and types[0] == "ftyp"
         ch.count("grammar_ok" if grammar_ok else "has_styp_or_emsg")
